@@ -5,7 +5,10 @@ import (
 	"fmt"
 	"os"
 	"path/filepath"
+	"runtime"
 	"strings"
+	"sync"
+	"sync/atomic"
 	"testing"
 	"time"
 
@@ -123,7 +126,11 @@ func runC19(root string, c C19Case) (nontrivial bool, v *Violation) {
 		}
 	}
 	var otherWritten []string
+	floodSeen := false
 	bound := func(where string) *Violation {
+		if floodSeen {
+			return nil // after an overflow of the kernel queue a watcher has to notify without knowing what was lost
+		}
 		if total > tomlWrites {
 			return violation("C19", "spurious-notification", "", "%s: %d notifications received but only %d in-place writes to .toml files were made; other files written so far: %v",
 				where, total, tomlWrites, otherWritten)
@@ -187,17 +194,50 @@ func runC19(root string, c C19Case) (nontrivial bool, v *Violation) {
 		case "flood":
 			// more modifications than the kernel's event queue holds (fs.inotify.max_queued_events, 16384 here) while the
 			// consumer is not reading: events get lost in the kernel - what must survive is the watcher itself
-			for k := 0; k < op.N; k++ {
-				file := op.File
-				if k%2 == 1 {
-					file = "device.toml"
+			if c19IsTOML(op.File) {
+				for k := 0; k < op.N; k++ {
+					file := op.File
+					if k%2 == 1 {
+						file = "device.toml"
+					}
+					if wv := write(op.Dir, file, ""); wv != nil {
+						return false, wv
+					}
 				}
-				if wv := write(op.Dir, file, ""); wv != nil {
+			} else {
+				// a flood of writes to other files - four writers with the files held open, faster than any watcher can read -
+				// and one single modification of a .toml file in the middle of it: the kernel may drop exactly that event; after
+				// an overflow the watcher cannot know what was lost and has to assume a change
+				var wg sync.WaitGroup
+				var done int64
+				for wtr := 0; wtr < 4; wtr++ {
+					wg.Add(1)
+					go func(wtr int) {
+						defer wg.Done()
+						f, err := os.OpenFile(filepath.Join(root, c12Dirs[op.Dir], []string{op.File, "README", "a.toml~", "x.tom"}[wtr]), os.O_WRONLY, 0)
+						if err != nil {
+							return
+						}
+						defer f.Close()
+						for k := 0; k < op.N; k++ {
+							f.WriteAt([]byte("# flood\n"), 0)
+							atomic.AddInt64(&done, 1)
+						}
+					}(wtr)
+				}
+				for atomic.LoadInt64(&done) < int64(2*op.N) {
+					runtime.Gosched()
+				}
+				if wv := write(op.Dir, "a.toml", ""); wv != nil {
 					return false, wv
 				}
+				wg.Wait()
+				otherWritten = append(otherWritten, "(flood)")
 			}
 			sawTOML = true
+			floodSeen = true
 			classify("flood beyond the kernel's event queue")
+			classifyIf(!c19IsTOML(op.File), "flood of other files around one .toml modification")
 		case "sleep":
 			time.Sleep(time.Duration(op.N) * time.Millisecond)
 		}
@@ -295,7 +335,7 @@ func genC19(t *rapid.T) C19Case {
 		}
 		if i == 0 && rapid.IntRange(0, 9).Draw(t, "flood") == 0 {
 			// once per case at most, and followed by an isolated write: after the flood the watcher must still notice it
-			op = c19Op{Kind: "flood", Dir: op.Dir, File: "a.toml", N: rapid.IntRange(17000, 40000).Draw(t, "floodN")}
+			op = c19Op{Kind: "flood", Dir: op.Dir, File: rapid.SampledFrom([]string{"a.toml", "notes.txt"}).Draw(t, "floodFile"), N: rapid.IntRange(17000, 40000).Draw(t, "floodN")}
 			c.Ops = append(c.Ops, op, c19Op{Kind: "write", Dir: rapid.IntRange(0, 3).Draw(t, "afterFloodDir"), File: "a.toml"})
 			continue
 		}
